@@ -17,8 +17,6 @@
 //@inject src/server/mod.rs :: ^use crate::half_connection;$ :: #[cfg(not(kani))]\nuse crate::half_connection;\n#[cfg(kani)]\nuse crate::verif_env::opaque as half_connection;
 //@inject src/server/remote_client.rs :: ^use crate::half_connection::HalfConnection;$ :: #[cfg(not(kani))]\nuse crate::half_connection::HalfConnection;\n#[cfg(kani)]\nuse crate::verif_env::opaque::HalfConnection;
 //@inject src/server/mod.rs :: let local_nonce = rand::random::<u32>\(\); :: #[cfg(not(kani))]\n        let local_nonce = rand::random::<u32>();\n        #[cfg(kani)]\n        let local_nonce = crate::verif_env::random_u32();
-//@inject src/client/mod.rs :: let now = time::Instant::now\(\);\n        \(now - self.time_base\) :: #[cfg(not(kani))]\n        let now = time::Instant::now();\n        #[cfg(kani)]\n        let now = crate::verif_env::instant_now();\n        (now - self.time_base)
-//@inject src/server/mod.rs :: let now = time::Instant::now\(\);\n        \(now - self.time_base\) :: #[cfg(not(kani))]\n        let now = time::Instant::now();\n        #[cfg(kani)]\n        let now = crate::verif_env::instant_now();\n        (now - self.time_base)
 
 #![allow(dead_code)]
 
@@ -29,10 +27,6 @@ pub fn fake_instant() -> std::time::Instant {
     struct Ts { s: i64, n: u32 }
     unsafe { std::mem::transmute::<Ts, std::time::Instant>(Ts { s: 0, n: 0 }) }
 }
-
-// Ghost clock for the obligations that run the real step(): time_base = fake_instant(), now = base + NOW_MS.
-pub static mut NOW_MS: u64 = 0;
-pub fn instant_now() -> std::time::Instant { fake_instant() + std::time::Duration::from_millis(unsafe { NOW_MS }) }
 
 pub static mut RANDOM_LAST: u32 = 0;
 pub static mut RANDOM_CALLS: u32 = 0;
